@@ -1723,6 +1723,9 @@ func genC09(g *G, sc *Scenario, tier string) {
 		// one client's view of a sync: start, 0-3 batches, end; with deviations
 		var ops []Op
 		id := g.Pick(ids)
+		if g.P(0.08) {
+			id = "" // a client that sends the start and end headers but no sync id
+		}
 		ops = append(ops, Op{K: "post", DS: "ds", Ents: ents(), M: map[string]any{"start": true, "id": id}})
 		for k := g.Range(0, 3); k > 0; k-- {
 			x := g.r.Float64()
